@@ -153,12 +153,50 @@ def judge(chk, texts, label):
                       {"text": kept[i], "verdict": f["v"], "spans": obs[i]["spans"][:20]})
     chk.cov["traces_validated_against_impl"] += len(obs) - len(failed)
     chk.cov["evaluations"] += len(obs)
+    sk = chk.notes.setdefault("span_kinds", {}).setdefault(label, {})
+    for o in obs:
+        for sp in o["spans"]:
+            sk[sp["what"]] = sk.get(sp["what"], 0) + 1
     nt = sum(1 for o in obs if len(o["tree"]) > 8 or o["errs"])
     chk.cov["distinct_nontrivial"] += nt
     mid = obs[len(obs) // 2]
     chk.sample({"source": label, "text": kept[len(obs) // 2][:120], "tokens": len(mid["toks"]), "lexical_errors": len(mid["errs"]),
                 "tree_nodes": len(mid["tree"]), "spans_checked": len(mid["spans"])})
     return len(obs)
+
+
+UNI = ["", "é", "€", "中", "\U0001F600", "é€\U0001F600", "a\u0301", "\u00a0"]
+DIAG_TEMPLATES = [
+    # programs that lex and parse and are rejected by the compiler or the evaluator; {U} = multi-byte characters inside or before
+    # the construct the diagnostic points at (strings, comments and annotations are the places that admit them)
+    "# title: [caf{U}\nlet a = {{}};\nres / on get -> <a>;\n",
+    "# title: \"{U}\n# description: x{V}\nlet a = {{}};\nres / on get -> <a>;\n",
+    "let a = {{}} `title: [x{U}`;\nres / on get -> <a>;\n",
+    "let a = {{ 'n num `title: \"{U}`, 'm str `description: \"{V}\"` }};\nres / on get -> <a>;\n",
+    "# description: \"{V}\"\nlet a = {{ 'n num `title: {{{U}` }};\nres / on get -> <a>;\n",
+    "/* {U} */ let a = b;\n",
+    "let s = \"{U}\"; /* {V} */ let a = {{ 'p s, 'q zz }};\n",
+    "let s = \"{U}\";\nres / on get -> <status=99, {{}}>;\n",
+    "# description: \"{U}\"\nlet a = num;\nres a on get -> {{}};\n",
+    "let f x = x; /* {U} */ res / on get -> <f \"{V}\" 1>;\n",
+    "use \"nofile{U}.oal\";\nlet a = num;\n",
+    "let a = \"{U}\" `title: \"{V}\"`; use \"missing.oal\" as m;\n",
+    "# title: \"{U}\"\nlet a = {{}} & \"{V}\";\nres / on get -> <a>;\n",
+    "let a = {{ 'n num }} `examples: {{ e: {{ value: [{U} }} }}`;\nres / on get -> <a>;\n",
+    "res /x{{ 'id num }} on get `summary: \"{U}` -> {{}};\n",
+    "res /x on get : {{ 'q str `description: [{U}` }} -> {{}};\n",
+    "let r = rec x {{ 'c [x] `title: {{{U}` }};\nres / on get -> <r>;\n",
+    "let @n = {{ 'c str }} `title: \"{U}\"`;\nlet @n = {{ 'd str }} `title: [{V}`;\nres / on get -> <n>;\n",
+]
+
+
+def diagnostic_family():
+    out = []
+    for t in DIAG_TEMPLATES:
+        for u in UNI:
+            for v in ("", "€", "\U0001F600"):
+                out.append(t.format(U=u, V=v))
+    return list(dict.fromkeys(out))
 
 
 LEX_FAMILIES = ["words", "slash", "quote", "punct", "blank", "key"]
@@ -224,6 +262,10 @@ def run(tier):
     import lexemes
     fam = lexemes.family_texts(rng, 400 if tier == "quick" else 8000)
     judge(chk, fam, "rendered-token-sequences")
+    judge(chk, diagnostic_family(), "diagnostic-programs")
+    kinds = chk.notes.get("span_kinds", {}).get("diagnostic-programs", {})
+    if kinds.get("eval-error", 0) < 40 or kinds.get("compile-error", 0) < 40:
+        raise common.ToolError("the directed diagnostic programs no longer produce compile/eval diagnostics with spans: %s" % kinds)
     chk.cov["rule"] = ("texts: repository corpus, character-level mutants (insert/delete/replace/duplicate over an alphabet with 2-4 byte characters, "
                        "CR LF, NUL, BOM), arbitrary strings over that alphabet, rendered token sequences; each text is lexed, parsed and compiled by the "
                        "real code and the observation judged by TLC (Tiling.tla); non-trivial = tree of more than 8 nodes or at least one lexical error; "
